@@ -87,7 +87,6 @@ func vhInstallHello(hello map[net.Conn]*vhHello) func() {
 	}
 }
 
-var vhIDs = []string{"3f2a", "3f2b", "", "3F2A"}
 
 // VH_C20_Accept: the reverse-connection accept loop with up to three arriving
 // connections, each opening with an arbitrary command and an arbitrary (or
@@ -110,7 +109,8 @@ func VH_C20_Accept() {
 		ln.conns = append(ln.conns, c)
 		h := &vhHello{fail: vBool(names[i] + "_readfails"), cmd: vInt(names[i] + "_cmd")}
 		ad := classad.New()
-		ids[i] = vPick(names[i]+"_id", vhIDs)
+		ids[i] = vString(names[i]+"_id", 6) // any text: shorter, longer, other case, a prefix ...
+		vAssume(vASCIIStr(ids[i]))
 		if vBool(names[i] + "_hasid") {
 			_ = ad.Set(AttrClaimID, ids[i])
 		} else {
@@ -170,7 +170,8 @@ func VH_C20_Proxy() {
 	st := stream.NewStream(conn)
 	reply := vPeerAd("reply", 6)
 	helloAd := classad.New()
-	hid := vPick("hello_id", vhIDs)
+	hid := vString("hello_id", 6)
+	vAssume(vASCIIStr(hid))
 	if vBool("hello_hasid") {
 		_ = helloAd.Set(AttrClaimID, hid)
 	} else {
